@@ -14,7 +14,10 @@ sys.path.insert(0, os.path.dirname(os.path.abspath(__file__)))
 from vlib import *
 
 PID = 'C05'
-THEOREMS = ['C05_static_equals_automatic_bitfields', 'C05_field_value', 'C05_or_merge_needs_clear_bits', 'C05_nonvacuous']
+THEOREMS = ['C05_static_equals_automatic_bitfields', 'C05_field_value', 'C05_or_merge_needs_clear_bits', 'C05_nonvacuous',
+            # package initcur (Properties_C05_initcur.v): parse.c's initializer functions = C11 6.7.9 for every valid (type, initializer)
+            'C05_initcur_model_is_6_7_9', 'C05_initcur_complete_types', 'C05_initcur_tree_is_replay', 'C05_initcur_braced_override_refuted', 'C05_initcur_union_switch_refuted',
+            'C05_initcur_nested_range_refuted', 'C05_initcur_string_elision_refuted', 'C05_initcur_nonvacuous', 'C05_initcur_nonvacuous_strings', 'C05_initcur_nonvacuous_range']
 MODELRUN = os.path.join(VERIF, 'ocaml/modelrun')
 
 SCALARS = ['char', 'signed char', 'unsigned char', 'short', 'int', 'unsigned', 'long', 'unsigned long', '_Bool', 'float', 'double', 'long double', 'char *', 'int *']
@@ -219,7 +222,7 @@ def main():
         run.proof_broken.append('scratch build of /repo failed: ' + str(e)[-800:])
         return run.finish(dict(evaluations=0), [], [])
     wd = scratch_dir()
-    run.check_proofs(deps=['theories/Model/InitMerge.vo', 'theories/Proofs/InitMergeProofs.vo'])
+    run.check_proofs(deps=['theories/Model/InitMerge.vo', 'theories/Proofs/InitMergeProofs.vo'], extra=['initcur'])
     chibi = os.path.join(src, 'chibicc')
     evals = 0; nontriv = 0; dist = {}; samples = []
     def count(k, n=1): dist[k] = dist.get(k, 0) + n
@@ -382,9 +385,15 @@ def main():
             run.violation(dict(kind='address-constant-value', program=open(f).read(), first_difference='chibicc "%s" gcc "%s"' % (l1[d] if d < len(l1) else '', l2[d] if d < len(l2) else ''),
                                how='each line: index, offset from &g of the file-scope static pointer, of the automatic pointer, of the block-scope static pointer'), dict(area='init', construct='address-constant'))
 
+    # ---------------- tie of package initcur: cases evaluated by the Coq spec and model (one coqc call) and by the real compiler ----------------
+    if not os.environ.get('VERIF_SKIP_PROOFS'):
+        te, tn, td, ts = run_tie(run, 'initcur', src, 160 if run.quick() else 1600, 'init')
+        evals += te; nontriv += tn; dist['tie_initcur'] = td; samples += ts
+    TIE_RULE = ' ' + '(e) package initcur: %d generated (type, initializer) pairs in the abstract syntax of Spec/InitSyntax.v printed as C (static and automatic object): every scalar leaf = Coq spec of 6.7.9 = Coq model of parse.c' % (160 if run.quick() else 1600)
     cov = dict(evaluations=evals, distinct_nontrivial=nontriv, input_distribution=dist, samples=samples,
                rule='%d generated (type, initializer) pairs: types of depth <= 3 over 14 scalar types, arrays, char arrays, structs with bit-fields and anonymous members, unions; initializers with positional prefixes, brace elision of complete sub-aggregates, designators in any order continuing positionally, index ranges followed by positional items, string literals (short, exact fit, braced), union members by designator, trailing commas, address constants (&array[k], pointer + offset, string literal + offset): each given to a file-scope static, an external, an automatic and a block-scope static object; all leaves of all four printed: chibicc = gcc, and where the generator tracks the C11 value, gcc = generator; %d programs whose file-scope, block-scope static and automatic pointers are initialized with address constants into a generated aggregate (array members and their decay, partial indexing of multi-dimensional arrays, &member, pointer arithmetic on either side, inside struct initializers): offsets from &g, chibicc = gcc' % (N, NAC),
                traces_validated_against_impl=nontriv)
+    cov['rule'] = cov.get('rule', '') + TIE_RULE
     return run.finish(cov,
         ['gcc 12 -O0 is the reference for the object values; the generator additionally tracks the value C11 6.7.9 gives each mentioned leaf and zero for the others (integers and pointers)',
          'excess initializers and other constraint violations are not generated'],
